@@ -4,6 +4,7 @@ build, full suite green with the mutant, demo fails with it and passes without i
 usage: confirm_seed.py <seed-dir> [<base-commit>]   -> writes <seed-dir>/confirm.json"""
 import json, os, re, shutil, subprocess, sys, time
 seed = os.path.abspath(sys.argv[1]); base = sys.argv[2] if len(sys.argv) > 2 else 'f379e7e'
+outname = sys.argv[3] if len(sys.argv) > 3 else 'confirm.json'
 meta = json.load(open(os.path.join(seed, 'meta.json')))
 wt = '/tmp/cf-' + os.path.basename(seed)
 env = dict(os.environ, GOFLAGS='-mod=mod', GOPROXY='off')
@@ -36,5 +37,5 @@ try:
     res['confirmed'] = all(res.get(k) for k in ('applies', 'builds', 'suite_green_with_mutant', 'demo_fails_with_mutant', 'demo_passes_without'))
 finally:
     subprocess.run(['git', '-C', '/repo', 'worktree', 'remove', '--force', wt])
-json.dump(res, open(os.path.join(seed, 'confirm.json'), 'w'), indent=1)
+json.dump(res, open(os.path.join(seed, outname), 'w'), indent=1)
 print(os.path.basename(seed), 'confirmed' if res.get('confirmed') else 'NOT CONFIRMED', {k: v for k, v in res.items() if isinstance(v, bool)})
